@@ -260,3 +260,42 @@ def cursor_pairing(ctx, R, prog):
             ctx.check(R, w is None, f.where(c), "every segment taken by the cursor is re-marked or reclaimed before the next fetch / the return", key=R + ":pair:%s" % cname, witness=w)
     if n < 4:
         raise AnalysisBroken("cursor pairing: %d cursor fetch sites, 4 confirmed" % n)
+
+
+def heap_by_tag(ctx, R, prog):
+    f = prog.fn("_mi_heap_by_tag")
+    cfg = f.cfg
+    hp, tg = f.param_id(0), f.param_id(1)
+    def own_tag(e, pol):
+        if not isinstance(e, int):
+            return False
+        c = rl.norm_cmp(f, e, pol)
+        if c is None or c[0] != "==":
+            return False
+        for a, b in ((c[1], c[2]), (c[2], c[1])):
+            j = f.strip(a)
+            if f.nodes[j]["k"] == "MemberExpr" and f.nodes[j]["fld"] == "tag" and f.is_ref(f.nodes[j]["c"][0], hp) and rl.var_of(f, b) == tg:
+                return True
+        return False
+    hit = [q for p, q, e, pol in rl.edges_with_fact(f, own_tag)]
+    ok = bool(hit)
+    for q in hit:
+        rets = [cfg.elem_at(p) for p in cfg.reach([q]) if cfg.elem_at(p) is not None and f.nodes[cfg.elem_at(p)]["k"] == "ReturnStmt"]
+        ok = ok and bool(rets) and all(rl.var_of(f, f.nodes[r].get("val", -1)) == hp for r in rets)
+    ctx.check(R, ok, f.where(), "on `heap->tag == tag` every return yields `heap` itself", key=R + ":own")
+    # and that test comes before any other heap can be chosen
+    others = [r for r in f.all(kind="ReturnStmt") if "val" in f.nodes[r] and rl.var_of(f, f.nodes[r]["val"]) not in (hp, None)]
+    for r in others:
+        def not_own(e, pol):
+            return isinstance(e, int) and own_tag(e, not pol)
+        w = cfg.guarded(cfg.pt(r), not_own)
+        ctx.check(R, w is None, f.where(r), "another heap of the thread is returned only when heap->tag != tag", key=R + ":other", witness=w)
+    g = prog.fn("mi_segment_reclaim")
+    hp = g.param_id(1)
+    for c in g.calls(("_mi_page_reclaim", "mi_page_set_heap")):
+        k = 0 if g.nodes[c]["callee"] == "_mi_page_reclaim" else 1
+        vals = rl.values_of(g, rl.arg(g, c, k))
+        ok = any(rl.is_call(g, v, "_mi_heap_by_tag") and rl.var_of(g, g.nodes[v]["args"][0]) == hp for v in vals) or any(rl.var_of(g, v) == hp for v in vals)
+        ctx.check(R, ok, g.where(c), "%s targets _mi_heap_by_tag(heap, page->heap_tag) or heap" % g.nodes[c]["callee"], key=R + ":reclaim")
+
+
